@@ -9,16 +9,16 @@ PR = {"c05"}                # re-entry / fault families: no priority clause (DES
 def conds(tier):
     q = tier == "quick"
     out = []
-    out.append(Cond("tree", core.mk_tree(P, 3, 2, 2), core.tree_params(3, 2, 2), pin=3, budget=120,
+    out.append(Cond("tree", core.mk_tree(P, 3, 2, 2), core.tree_params(3, 2, 2), builds=("C", "P"), pin=3, budget=120,
                     family="F-TREE(3,2,2) tuple priorities", encodes=core.ENC_SCHED))
     out.append(Cond("treeint", core.mk_tree(P, 3, 2, 2, prio_mode="int"), core.tree_params(3, 2, 2), pin=3,
                     budget=120, family="F-TREE(3,2,2) get_priority overridden to arbitrary ints",
                     encodes=core.ENC_SCHED))
     out.append(Cond("treedef", core.mk_tree(P, 3, 2, 2, prio_mode="default"), core.tree_params(3, 2, 2), pin=3,
                     budget=120, family="F-TREE(3,2,2) default priority (most items)", encodes=core.ENC_SCHED))
-    out.append(Cond("steps", core.mk_steps(P, 2, 3), core.steps_params(2, 3), pin=2, budget=120,
+    out.append(Cond("steps", core.mk_steps(P, 2, 3), core.steps_params(2, 3), builds=("C", "P"), pin=2, budget=120,
                     family="F-STEPS(2,3)", encodes=core.ENC_SCHED))
-    out.append(core.seq_cond("seq", P, 3, 2))
+    out.append(core.seq_cond("seq", P, 3, 2, builds=("C", "P")))
     out.append(Cond("reentry", core.mk_reentry(PR), core.REENTRY_PARAMS, pin=3, budget=150,
                     family="F-REENTRY", encodes=core.ENC_SCHED))
     out.append(core.fault_cond("fault", PR, [4], g0modes=2, g1modes=3, pin=4, budget=200))
